@@ -139,7 +139,7 @@ func (h *histRun[G, S]) redistribute(cur *epoch[G, S], prev []sim.ID, next *acSp
 			if anchor && !prevSet[id] {
 				opts = append(opts, redistribute.WithTrustedAnchorID(anchorID))
 			}
-			r, err := redistribute.NewRunner(sctx, quorumOf(prev), prevShard, next.lib, rnd, opts...)
+			r, err := redistribute.NewRunner(sctx, quorumOf(prev), prevShard, next.libOf(id), rnd, opts...)
 			if err != nil {
 				return nil, err
 			}
